@@ -23,6 +23,8 @@ pub enum Fault {
     Eof { at: u64 },
     /// stored byte flipped before the run
     Flip { off: u64, bit: u8 },
+    /// `len` stored bytes from `off` on read as zero (a field of a header wiped: a size that says 0, a checksum of 0)
+    Zero { off: u64, len: u8 },
     /// `seek` call number `at_call` fails
     SeekFail { at_call: u32 },
     // ---- writer side
@@ -44,6 +46,7 @@ impl Fault {
             Fault::EioOnceAtOffset { .. } => "eio_once_at_offset",
             Fault::Eof { .. } => "eof",
             Fault::Flip { .. } => "flip",
+            Fault::Zero { .. } => "zero_field",
             Fault::SeekFail { .. } => "seek_fail",
             Fault::Enospc { .. } => "enospc",
             Fault::WriteEio { .. } => "write_eio",
@@ -185,6 +188,13 @@ impl SimReader {
                     if (*off as usize) < data.len() {
                         data[*off as usize] ^= 1 << (bit & 7);
                         fired.push("flip");
+                    }
+                }
+                Fault::Zero { off, len } => {
+                    let (a, b) = (*off as usize, (*off as usize + *len as usize).min(data.len()));
+                    if a < b && data[a..b].iter().any(|x| *x != 0) {
+                        data[a..b].fill(0);
+                        fired.push("zero_field");
                     }
                 }
                 Fault::Eof { at } => {
